@@ -1,8 +1,1982 @@
-// C09 harness part (stub until built)
-use crate::verif::vx::report::Report;
+// C09 harness: routes are propagated only where BGP allows, with correctly
+// rewritten attributes.  Lives in crate::event::verif_event::c09.
+//
+// Part A  (export)  : bounded-exhaustive enumeration of the real
+//                     `process_nlri_change` over the source x receiver x
+//                     RR x confederation x add-path x attribute-set x AS_PATH
+//                     x next-hop x export-policy x LLGR matrix; the oracle is
+//                     an independent reference written from the statement.
+// Part B1 (inbound) : `is_as_loop` over AS_PATHs with the local AS /
+//                     confederation id / member AS in every segment type
+//                     and position.
+// Part B2 (inbound) : `PeerSession::rx_update` (ORIGINATOR_ID / CLUSTER_LIST
+//                     checks) into a real TableManager.
+// Part B3 (inbound) : a covering subset replayed as real UPDATE bytes over a
+//                     loopback TCP session through accept_connection +
+//                     PeerSession::run (the AS-loop test is inline in
+//                     run_select).
 
-pub(crate) fn run(_replay: Option<&str>) -> Report {
+use super::super::export::{ExportMap, NlriSink, PeerExportContext, is_as_loop, process_nlri_change};
+use super::super::*;
+use super::common::{default_peer_params, make_global, make_tables, runtime};
+use crate::verif::vx::bfs;
+use crate::verif::vx::report::{self, Report, Violation};
+use std::collections::{BTreeMap, BTreeSet, HashSet};
+use std::hash::{Hash, Hasher};
+use std::net::{IpAddr, Ipv4Addr, Ipv6Addr};
+use std::sync::Mutex;
+use std::sync::atomic::{AtomicU64, Ordering as AOrd};
+
+type Attr = packet::Attribute;
+type Attrs = Arc<Vec<packet::Attribute>>;
+type Nh = Option<bgp::Nexthop>;
+
+// ---------------------------------------------------------------------------
+// Local configuration universe
+// ---------------------------------------------------------------------------
+const M_AS: u32 = 65000; // global AS (= member AS when in a confederation)
+const CONFED_ID: u32 = 64600;
+const MEMBER_PEER_AS: u32 = 65010; // another member AS of the confederation
+const MEMBERS: [u32; 3] = [65000, 65010, 65020];
+const EBGP_PEER_AS: u32 = 65100;
+const RS_PEER_AS: u32 = 65101;
+const LLGR_STALE: [u8; 4] = [0xff, 0xff, 0x00, 0x06];
+
+fn router_id() -> Ipv4Addr {
+    Ipv4Addr::new(10, 0, 0, 254)
+}
+fn expl_cluster() -> Ipv4Addr {
+    Ipv4Addr::new(1, 2, 3, 4)
+}
+fn recv_addr() -> IpAddr {
+    IpAddr::V4(Ipv4Addr::new(10, 2, 0, 1))
+}
+
+const ROLES: [PeerRole; 5] = [
+    PeerRole::Ebgp,
+    PeerRole::RsClient,
+    PeerRole::Ibgp,
+    PeerRole::IbgpRrClient,
+    PeerRole::ConfedEbgp,
+];
+const ROLE_NAMES: [&str; 5] = ["ebgp", "rs", "ibgp", "rrc", "cebgp"];
+const SRC_NAMES: [&str; 8] = ["ebgp", "rs", "ibgp", "rrc", "cebgp", "local", "kernel", "samepeer"];
+const RR_NAMES: [&str; 3] = ["none", "default", "explicit"];
+const AP_NAMES: [&str; 9] = ["absent", "empty", "seq1", "confedseq+seq", "confedset", "set", "seq255", "seq255+seq1", "seq+confedseq+set"];
+const NH_NAMES: [&str; 7] = ["v4", "v6", "v6ll", "none", "none-flowspec", "unspec4", "unspec6"];
+const POL_NAMES: [&str; 6] = ["none", "setnh-addr", "setnh-self", "setnh-unchanged", "set-med", "reject"];
+
+// factor order: src recv rr confed max attrs aspath nh pol llgr
+const DIMS: [usize; 10] = [8, 5, 3, 2, 2, 256, 9, 7, 6, 2];
+const F_SRC: usize = 0;
+const F_RECV: usize = 1;
+const F_RR: usize = 2;
+const F_CONFED: usize = 3;
+const F_MAX: usize = 4;
+const F_ATTRS: usize = 5;
+const F_AP: usize = 6;
+const F_NH: usize = 7;
+const F_POL: usize = 8;
+const F_LLGR: usize = 9;
+
+// attribute presence bits
+const A_LP: usize = 1;
+const A_MED: usize = 2;
+const A_ORIG: usize = 4;
+const A_CL: usize = 8;
+const A_AIGP: usize = 16;
+const A_COMM: usize = 32;
+const A_UT: usize = 64;
+const A_UNT: usize = 128;
+
+const STORED_LP: u32 = 200;
+const STORED_MED: u32 = 50;
+const POLICY_MED: u32 = 77;
+const STORED_ORIG: u32 = 0x0a09_0909; // 10.9.9.9
+const STORED_CL: [u8; 8] = [5, 5, 5, 5, 6, 6, 6, 6];
+const UT_CODE: u8 = 200;
+const UNT_CODE: u8 = 201;
+
+#[derive(Clone, Copy, Debug, PartialEq, Eq, PartialOrd, Ord, Hash)]
+struct Case {
+    d: [usize; 10],
+}
+
+impl Case {
+    fn from_digits(v: &[usize]) -> Case {
+        let mut d = [0usize; 10];
+        d.copy_from_slice(&v[..10]);
+        Case { d }
+    }
+    fn confed(&self) -> bool {
+        self.d[F_CONFED] == 1
+    }
+    fn recv_role(&self) -> PeerRole {
+        ROLES[self.d[F_RECV]]
+    }
+    /// role of the (first) source when it is a peer
+    fn src_role(&self) -> Option<PeerRole> {
+        match self.d[F_SRC] {
+            k @ 0..=4 => Some(ROLES[k]),
+            7 => Some(self.recv_role()),
+            _ => None,
+        }
+    }
+    fn feasible(&self) -> bool {
+        let needs_confed = self.d[F_RECV] == 4 || self.d[F_SRC] == 4;
+        let needs_rr = self.d[F_RECV] == 3 || self.d[F_SRC] == 3;
+        if needs_confed && !self.confed() {
+            return false;
+        }
+        if needs_rr && self.d[F_RR] == 0 {
+            return false;
+        }
+        // LLGR-stale is a property of a peer session's Source only
+        // (mark_llgr_stale debug-asserts !local && !kernel): llgr=1 with a
+        // local/kernel source is the same case as llgr=0 (non-canonical).
+        if self.d[F_LLGR] == 1 && (self.d[F_SRC] == 5 || self.d[F_SRC] == 6) {
+            return false;
+        }
+        true
+    }
+    fn to_string(&self) -> String {
+        let ds: Vec<String> = self.d.iter().map(|x| x.to_string()).collect();
+        format!(
+            "x:{} ({}->{} rr={} confed={} max={} attrs={:#04x} aspath={} nh={} pol={} llgr={})",
+            ds.join("."),
+            SRC_NAMES[self.d[F_SRC]],
+            ROLE_NAMES[self.d[F_RECV]],
+            RR_NAMES[self.d[F_RR]],
+            self.d[F_CONFED],
+            self.d[F_MAX] + 1,
+            self.d[F_ATTRS],
+            AP_NAMES[self.d[F_AP]],
+            NH_NAMES[self.d[F_NH]],
+            POL_NAMES[self.d[F_POL]],
+            self.d[F_LLGR]
+        )
+    }
+    fn parse(s: &str) -> Option<Case> {
+        let s = s.strip_prefix("x:")?;
+        let s = s.split_whitespace().next()?;
+        let v: Vec<usize> = s.split('.').filter_map(|t| t.parse().ok()).collect();
+        if v.len() != 10 || v.iter().zip(DIMS.iter()).any(|(a, b)| a >= b) {
+            return None;
+        }
+        Some(Case::from_digits(&v))
+    }
+}
+
+fn sess_local_asn(role: PeerRole, confed: bool) -> u32 {
+    // Global::add_peer: external peers see the confederation id as local AS.
+    if confed && matches!(role, PeerRole::Ebgp | PeerRole::RsClient) { CONFED_ID } else { M_AS }
+}
+
+fn remote_asn_of(role: PeerRole) -> u32 {
+    match role {
+        PeerRole::Ebgp => EBGP_PEER_AS,
+        PeerRole::RsClient => RS_PEER_AS,
+        PeerRole::Ibgp | PeerRole::IbgpRrClient => M_AS,
+        PeerRole::ConfedEbgp => MEMBER_PEER_AS,
+    }
+}
+
+fn role_idx(role: PeerRole) -> usize {
+    ROLES.iter().position(|r| *r == role).unwrap()
+}
+
+/// Source exactly as PeerSession::on_established builds it.
+fn mk_peer_source(role: PeerRole, addr: IpAddr, rid: Ipv4Addr, confed: bool) -> Arc<table::Source> {
+    Arc::new(table::Source::new(
+        addr,
+        IpAddr::V4(Ipv4Addr::new(10, 0, 0, 1)),
+        remote_asn_of(role),
+        sess_local_asn(role, confed),
+        rid,
+        role,
+    ))
+}
+
+// ---------------------------------------------------------------------------
+// AS_PATH helpers (independent of the packet crate's helpers)
+// ---------------------------------------------------------------------------
+type Segs = Vec<(u8, Vec<u32>)>;
+const T_SET: u8 = 1;
+const T_SEQ: u8 = 2;
+const T_CSEQ: u8 = 3;
+const T_CSET: u8 = 4;
+
+fn long_seq() -> Vec<u32> {
+    (0..255u32).map(|i| 100_000 + i).collect()
+}
+
+fn aspath_segments(shape: usize) -> Option<Segs> {
+    match shape {
+        0 => None,
+        1 => Some(vec![]),
+        2 => Some(vec![(T_SEQ, vec![65100])]),
+        3 => Some(vec![(T_CSEQ, vec![65010]), (T_SEQ, vec![65100, 65200])]),
+        4 => Some(vec![(T_CSET, vec![65010, 65020])]),
+        5 => Some(vec![(T_SET, vec![65100, 65200])]),
+        6 => Some(vec![(T_SEQ, long_seq())]),
+        7 => Some(vec![(T_SEQ, long_seq()), (T_SEQ, vec![65300])]),
+        _ => Some(vec![(T_SEQ, vec![65100]), (T_CSEQ, vec![65010]), (T_SET, vec![65200, 65300])]),
+    }
+}
+
+fn encode_segs(segs: &Segs) -> Vec<u8> {
+    let mut b = Vec::new();
+    for (t, asns) in segs {
+        b.push(*t);
+        b.push(asns.len() as u8);
+        for a in asns {
+            b.extend_from_slice(&a.to_be_bytes());
+        }
+    }
+    b
+}
+
+fn parse_segs(b: &[u8]) -> Result<Segs, String> {
+    let mut out = Vec::new();
+    let mut i = 0usize;
+    while i < b.len() {
+        if i + 2 > b.len() {
+            return Err(format!("truncated segment header at {i}"));
+        }
+        let t = b[i];
+        let n = b[i + 1] as usize;
+        i += 2;
+        if !(1..=4).contains(&t) {
+            return Err(format!("segment type {t}"));
+        }
+        if n == 0 {
+            return Err("zero-length segment".into());
+        }
+        if i + 4 * n > b.len() {
+            return Err(format!("segment of {n} ASes overruns attribute"));
+        }
+        let mut v = Vec::with_capacity(n);
+        for k in 0..n {
+            v.push(u32::from_be_bytes([b[i + 4 * k], b[i + 4 * k + 1], b[i + 4 * k + 2], b[i + 4 * k + 3]]));
+        }
+        i += 4 * n;
+        out.push((t, v));
+    }
+    Ok(out)
+}
+
+fn count_as(segs: &Segs, asn: u32) -> usize {
+    segs.iter().map(|(_, v)| v.iter().filter(|a| **a == asn).count()).sum()
+}
+
+/// merge adjacent AS_SEQUENCE segments (a split/merged sequence is the same path)
+fn normalise(segs: &Segs) -> Segs {
+    let mut out: Segs = Vec::new();
+    for (t, v) in segs {
+        if *t == T_SEQ {
+            if let Some((lt, lv)) = out.last_mut() {
+                if *lt == T_SEQ {
+                    lv.extend_from_slice(v);
+                    continue;
+                }
+            }
+        }
+        out.push((*t, v.clone()));
+    }
+    out
+}
+
+fn segs_brief(segs: &Segs) -> String {
+    let parts: Vec<String> = segs
+        .iter()
+        .map(|(t, v)| {
+            let n = ["?", "SET", "SEQ", "CSEQ", "CSET"][(*t as usize).min(4)];
+            if v.len() > 4 {
+                format!("{}[{},{},..x{}]", n, v[0], v[1], v.len())
+            } else {
+                format!("{}{:?}", n, v)
+            }
+        })
+        .collect();
+    format!("<{}>", parts.join(" "))
+}
+
+// ---------------------------------------------------------------------------
+// attribute vectors, next hops, policies
+// ---------------------------------------------------------------------------
+fn build_attrs(mask: usize, shape: usize) -> Vec<Attr> {
+    let mut v = vec![Attr::new_with_value(Attr::ORIGIN, 0).unwrap()];
+    if let Some(segs) = aspath_segments(shape) {
+        v.push(Attr::new_with_bin(Attr::AS_PATH, encode_segs(&segs)).unwrap());
+    }
+    if mask & A_MED != 0 {
+        v.push(Attr::new_with_value(Attr::MULTI_EXIT_DESC, STORED_MED).unwrap());
+    }
+    if mask & A_LP != 0 {
+        v.push(Attr::new_with_value(Attr::LOCAL_PREF, STORED_LP).unwrap());
+    }
+    if mask & A_COMM != 0 {
+        v.push(Attr::new_with_bin(Attr::COMMUNITY, vec![0xfd, 0xe8, 0x00, 0x01]).unwrap());
+    }
+    if mask & A_ORIG != 0 {
+        v.push(Attr::new_with_value(Attr::ORIGINATOR_ID, STORED_ORIG).unwrap());
+    }
+    if mask & A_CL != 0 {
+        v.push(Attr::new_with_bin(Attr::CLUSTER_LIST, STORED_CL.to_vec()).unwrap());
+    }
+    if mask & A_AIGP != 0 {
+        v.push(Attr::new_with_bin(Attr::AIGP, vec![1, 0, 11, 0, 0, 0, 0, 0, 0, 0, 100]).unwrap());
+    }
+    if mask & A_UT != 0 {
+        v.push(Attr::new_opaque(UT_CODE, 0xC0, vec![1, 2, 3]));
+    }
+    if mask & A_UNT != 0 {
+        v.push(Attr::new_opaque(UNT_CODE, 0x80, vec![4, 5]));
+    }
+    v
+}
+
+struct NhKind {
+    stored: Nh,
+    family: Family,
+    v6: bool,
+    flowspec: bool,
+}
+
+fn nh_kind(k: usize) -> NhKind {
+    let g6: Ipv6Addr = "2001:db8::1".parse().unwrap();
+    let ll: Ipv6Addr = "fe80::2".parse().unwrap();
+    match k {
+        0 => NhKind { stored: Some(bgp::Nexthop::V4(Ipv4Addr::new(192, 0, 2, 1))), family: Family::IPV4, v6: false, flowspec: false },
+        1 => NhKind { stored: Some(bgp::Nexthop::V6(g6)), family: Family::IPV6, v6: true, flowspec: false },
+        2 => NhKind { stored: Some(bgp::Nexthop::V6LinkLocal(g6, ll)), family: Family::IPV6, v6: true, flowspec: false },
+        3 => NhKind { stored: None, family: Family::IPV4, v6: false, flowspec: false },
+        4 => NhKind { stored: None, family: Family::IPV4_FLOWSPEC, v6: false, flowspec: true },
+        5 => NhKind { stored: Some(bgp::Nexthop::V4(Ipv4Addr::UNSPECIFIED)), family: Family::IPV4, v6: false, flowspec: false },
+        _ => NhKind { stored: Some(bgp::Nexthop::V6(Ipv6Addr::UNSPECIFIED)), family: Family::IPV6, v6: true, flowspec: false },
+    }
+}
+
+fn local_addr_for(v6: bool) -> (IpAddr, Option<Ipv6Addr>) {
+    if v6 {
+        (IpAddr::V6("2001:db8:ffff::1".parse().unwrap()), Some("fe80::1".parse().unwrap()))
+    } else {
+        (IpAddr::V4(Ipv4Addr::new(10, 0, 0, 1)), None)
+    }
+}
+
+fn policy_nh_addr(v6: bool) -> IpAddr {
+    if v6 { IpAddr::V6("2001:db8::99".parse().unwrap()) } else { IpAddr::V4(Ipv4Addr::new(192, 0, 2, 99)) }
+}
+
+fn net_for(k: &NhKind) -> packet::Nlri {
+    if k.flowspec {
+        packet::Nlri::FlowspecV4(packet::flowspec::FlowspecV4Nlri { components: vec![] })
+    } else if k.v6 {
+        "2001:db8:1::/48".parse().unwrap()
+    } else {
+        "10.0.1.0/24".parse().unwrap()
+    }
+}
+
+fn mk_policy(pol: usize, v6: bool) -> Option<Arc<table::PolicyAssignment>> {
+    if pol == 0 {
+        return None;
+    }
+    let mut actions = table::Actions::default();
+    let mut disposition = None;
+    match pol {
+        1 => actions.nexthop = Some(table::NexthopAction::Address(policy_nh_addr(v6))),
+        2 => actions.nexthop = Some(table::NexthopAction::PeerSelf),
+        3 => actions.nexthop = Some(table::NexthopAction::Unchanged),
+        4 => actions.med = Some(table::MedAction { action_type: table::MedActionType::Replace, value: POLICY_MED as i64 }),
+        _ => disposition = Some(table::Disposition::Reject),
+    }
+    let st = Arc::new(table::Statement { name: Arc::from("c09-s"), conditions: vec![], disposition, actions });
+    let p = Arc::new(table::Policy { name: Arc::from("c09-p"), statements: vec![st] });
+    Some(Arc::new(table::PolicyAssignment {
+        name: Arc::from("c09-a"),
+        disposition: table::Disposition::Accept,
+        policies: vec![p],
+        needs_rpki: false,
+    }))
+}
+
+// ---------------------------------------------------------------------------
+// Part A: driving process_nlri_change
+// ---------------------------------------------------------------------------
+#[derive(Default)]
+struct RecSink {
+    reach: Vec<(u32, Nh, Attrs, IpAddr)>,
+    unreach: Vec<u32>,
+}
+
+impl NlriSink for RecSink {
+    fn reach(&mut self, _dest_id: u32, _nlri: packet::Nlri, path_id: u32, nexthop: Nh, attr: Attrs, source: &Arc<table::Source>) {
+        self.reach.push((path_id, nexthop, attr, source.remote_addr));
+    }
+    fn unreach(&mut self, _dest_id: u32, _nlri: packet::Nlri, path_id: u32) {
+        self.unreach.push(path_id);
+    }
+}
+
+struct PathIn {
+    pid: u32,
+    kind: usize, // index into SRC_NAMES
+    role: Option<PeerRole>,
+    source: Arc<table::Source>,
+    nexthop: Nh,
+    attrs: Attrs,
+    stale: bool,
+}
+
+struct Setup {
+    ctx: PeerExportContext,
+    cluster_id: Option<Ipv4Addr>,
+    effective_max: usize,
+    family: Family,
+    net: packet::Nlri,
+    policy: Option<Arc<table::PolicyAssignment>>,
+    paths: Vec<PathIn>,
+    nhk: NhKind,
+}
+
+fn mk_path(c: &Case, kind: usize, which: u8, pid: u32, stale: bool, nhk: &NhKind) -> PathIn {
+    let confed = c.confed();
+    let (source, role) = match kind {
+        5 => (table::Source::local(), None),
+        6 => (table::Source::kernel(), None),
+        7 => {
+            let role = c.recv_role();
+            (mk_peer_source(role, recv_addr(), Ipv4Addr::new(10, 2, 0, 1), confed), Some(role))
+        }
+        k => {
+            let role = ROLES[k];
+            let a = Ipv4Addr::new(10, 1, k as u8 + 1, which);
+            (mk_peer_source(role, IpAddr::V4(a), a, confed), Some(role))
+        }
+    };
+    if stale {
+        source.mark_llgr_stale();
+    }
+    PathIn {
+        pid,
+        kind,
+        role,
+        source,
+        nexthop: nhk.stored,
+        attrs: Arc::new(build_attrs(c.d[F_ATTRS], c.d[F_AP])),
+        stale,
+    }
+}
+
+fn setup(c: &Case) -> Setup {
+    let nhk = nh_kind(c.d[F_NH]);
+    let role = c.recv_role();
+    let (local_addr, link_addr) = local_addr_for(nhk.v6);
+    let ctx = PeerExportContext {
+        role,
+        local_asn: sess_local_asn(role, c.confed()),
+        local_addr,
+        link_addr,
+        confederation_id: if c.confed() { CONFED_ID } else { 0 },
+    };
+    // exactly as accept_connection derives it
+    let cluster_id = match role {
+        PeerRole::Ibgp | PeerRole::IbgpRrClient => Some(if c.d[F_RR] == 2 { expl_cluster() } else { router_id() }),
+        _ => None,
+    };
+    let effective_max = c.d[F_MAX] + 1;
+    let mut paths = vec![mk_path(c, c.d[F_SRC], 1, 11, c.d[F_LLGR] == 1, &nhk)];
+    if effective_max > 1 {
+        // second path: another peer of the same kind (other address) when the
+        // first is a peer kind; otherwise an eBGP (or RS-client, for an
+        // RS-client receiver) peer, so that something is eligible.
+        let k2 = match c.d[F_SRC] {
+            k @ 0..=4 => k,
+            _ => {
+                if role == PeerRole::RsClient {
+                    1
+                } else {
+                    0
+                }
+            }
+        };
+        paths.push(mk_path(c, k2, 2, 12, false, &nhk));
+    }
+    Setup {
+        ctx,
+        cluster_id,
+        effective_max,
+        family: nhk.family,
+        net: net_for(&nhk),
+        policy: mk_policy(c.d[F_POL], nhk.v6),
+        paths,
+        nhk,
+    }
+}
+
+fn mk_change(s: &Setup) -> table::NlriChange {
+    table::NlriChange {
+        family: s.family,
+        net: s.net.clone(),
+        dest_id: 7,
+        best_changed: true,
+        any_changed: true,
+        replaced_path_id: None,
+        current_paths: Arc::new(
+            s.paths
+                .iter()
+                .map(|p| table::Path {
+                    local_path_id: p.pid,
+                    source: Arc::clone(&p.source),
+                    nexthop: p.nexthop,
+                    attr: Arc::clone(&p.attrs),
+                })
+                .collect(),
+        ),
+    }
+}
+
+fn drive(s: &Setup) -> Result<RecSink, String> {
+    let change = mk_change(s);
+    report::catch(|| {
+        let mut em = if s.effective_max > 1 { ExportMap::new([s.family]) } else { ExportMap::new([]) };
+        let mut sink = RecSink::default();
+        process_nlri_change(
+            &change,
+            s.effective_max,
+            recv_addr(),
+            &mut em,
+            &mut sink,
+            &s.ctx,
+            s.policy.as_deref(),
+            s.cluster_id,
+            None,
+            None,
+            None,
+        );
+        sink
+    })
+}
+
+/// Same call with the production sink (PendingTx); returns (path_id, nexthop, attrs) per reach entry.
+fn drive_pending(s: &Setup) -> Result<Vec<(u32, Nh, Attrs)>, String> {
+    let change = mk_change(s);
+    report::catch(|| {
+        let mut em = if s.effective_max > 1 { ExportMap::new([s.family]) } else { ExportMap::new([]) };
+        let mut pending = crate::peer_tx::PendingTx::new(s.effective_max > 1);
+        process_nlri_change(
+            &change,
+            s.effective_max,
+            recv_addr(),
+            &mut em,
+            &mut pending,
+            &s.ctx,
+            s.policy.as_deref(),
+            s.cluster_id,
+            None,
+            None,
+            None,
+        );
+        let mut out = Vec::new();
+        for m in pending.drain_messages(s.family) {
+            if let bgp::Message::Update(bgp::Update::Reach { entries, nexthop, attr, .. }) = m {
+                for e in entries {
+                    out.push((e.path_id, nexthop, Arc::clone(&attr)));
+                }
+            }
+        }
+        out.sort_by_key(|x| x.0);
+        out
+    })
+}
+
+// ---------------------------------------------------------------------------
+// Part A: the reference oracle (written from the statement; never calls the
+// helpers of export.rs / packet's as_path_* functions)
+// ---------------------------------------------------------------------------
+#[derive(Default)]
+struct Stats {
+    /// clause -> number of (path, receiver) evaluations in which the clause was actually decided
+    clause: BTreeMap<&'static str, u64>,
+    /// observations outside the statement (never verdicts)
+    obs: BTreeMap<String, u64>,
+    sent: [[u64; 8]; 5],
+    withheld: [[u64; 8]; 5],
+    /// [kind of observation][receiver][source kind]
+    pair_obs: [[[u64; 8]; 5]; 3],
+    /// LOCAL_PREF value sent to iBGP peers: (stored present?, value sent) -> count
+    lp_obs: BTreeMap<(bool, Option<u32>), u64>,
+}
+const PAIR_OBS: [&str; 3] = ["obs/allowed-but-not-advertised", "obs/non-reflected-route-gained-originator-id", "obs/non-reflected-route-gained-cluster-id"];
+
+impl Stats {
+    fn hit(&mut self, k: &'static str) {
+        *self.clause.entry(k).or_insert(0) += 1;
+    }
+    fn note(&mut self, k: String) {
+        *self.obs.entry(k).or_insert(0) += 1;
+    }
+    fn merge(&mut self, o: Stats) {
+        for (k, v) in o.clause {
+            *self.clause.entry(k).or_insert(0) += v;
+        }
+        for (k, v) in o.obs {
+            *self.obs.entry(k).or_insert(0) += v;
+        }
+        for r in 0..5 {
+            for s in 0..8 {
+                self.sent[r][s] += o.sent[r][s];
+                self.withheld[r][s] += o.withheld[r][s];
+                for k in 0..3 {
+                    self.pair_obs[k][r][s] += o.pair_obs[k][r][s];
+                }
+            }
+        }
+        for (k, v) in o.lp_obs {
+            *self.lp_obs.entry(k).or_insert(0) += v;
+        }
+    }
+}
+
+fn find_all(attrs: &[Attr], code: u8) -> Vec<&Attr> {
+    attrs.iter().filter(|a| a.code() == code).collect()
+}
+
+fn is_self_nh(nh: &bgp::Nexthop, ctx: &PeerExportContext) -> bool {
+    match nh {
+        bgp::Nexthop::V4(a) => IpAddr::V4(*a) == ctx.local_addr,
+        bgp::Nexthop::V6(a) => IpAddr::V6(*a) == ctx.local_addr,
+        bgp::Nexthop::V6LinkLocal(a, l) => IpAddr::V6(*a) == ctx.local_addr && Some(*l) == ctx.link_addr,
+    }
+}
+
+fn nh_str(nh: &Nh) -> String {
+    match nh {
+        None => "none".into(),
+        Some(n) => n.to_string(),
+    }
+}
+
+/// Must the route of `p` be withheld from the receiver?  (sig, reason)
+fn must_withhold(c: &Case, p: &PathIn) -> Option<(String, String)> {
+    let recv = c.recv_role();
+    if p.source.remote_addr == recv_addr() {
+        return Some(("C09/echo-to-source".into(), "route advertised back to the peer (same remote address) it was learned from".into()));
+    }
+    if let Some(sr) = p.role {
+        if sr == PeerRole::Ibgp && recv == PeerRole::Ibgp {
+            return Some((
+                "C09/ibgp-nonclient-to-nonclient".into(),
+                "route learned from a non-client iBGP peer advertised to another non-client iBGP peer".into(),
+            ));
+        }
+        if sr == PeerRole::RsClient && recv != PeerRole::RsClient {
+            return Some((
+                "C09/rs-boundary/rs-to-nonrs".to_string(),
+                "route learned from a route-server client advertised to a non-route-server peer".into(),
+            ));
+        }
+        if sr != PeerRole::RsClient && recv == PeerRole::RsClient {
+            return Some((
+                "C09/rs-boundary/nonrs-to-rs".to_string(),
+                "route learned from a non-route-server peer advertised to a route-server client".into(),
+            ));
+        }
+    }
+    None
+}
+
+/// Evaluate every clause of the statement on what was handed to the sink for
+/// input path `p` (None = nothing advertised).
+fn check_path(c: &Case, s: &Setup, p: &PathIn, out: Option<(&Nh, &Attrs)>, st: &mut Stats) -> Vec<(String, String)> {
+    let mut v: Vec<(String, String)> = Vec::new();
+    let recv = c.recv_role();
+    let ri = role_idx(recv);
+    let shape = AP_NAMES[c.d[F_AP]];
+    // shape classes: next-hop kind {v4,v6,v6ll,none,unspec}, policy {default (no next-hop action), setnh-*}
+    let nhname = ["v4", "v6", "v6ll", "none", "none", "unspec", "unspec"][c.d[F_NH]];
+    let polname = POL_NAMES[c.d[F_POL]];
+    let polclass = ["default", "setnh-addr", "setnh-self", "setnh-unchanged", "default", "default"][c.d[F_POL]];
+    let pol = c.d[F_POL];
+    let mask = c.d[F_ATTRS];
+    let is_peer = p.role.is_some();
+
+    // ---- where BGP allows -------------------------------------------------
+    if let Some((sig, why)) = must_withhold(c, p) {
+        st.hit("withhold");
+        if out.is_some() {
+            v.push((sig, format!("{why}: source {} ({}) -> receiver {}", p.source.remote_addr, SRC_NAMES[p.kind], ROLE_NAMES[ri])));
+        }
+        return v;
+    }
+    let Some((nh, attrs)) = out else {
+        st.withheld[ri][p.kind] += 1;
+        if pol != 5 {
+            st.pair_obs[0][ri][p.kind] += 1;
+        }
+        return v;
+    };
+    st.sent[ri][p.kind] += 1;
+    if pol == 5 {
+        st.note(format!("obs/advertised-despite-policy-reject/{}", ROLE_NAMES[ri]));
+    }
+
+    let stored_segs: Option<Segs> = aspath_segments(c.d[F_AP]);
+    let out_paths = find_all(attrs, Attr::AS_PATH);
+
+    match recv {
+        // ---- eBGP receivers ------------------------------------------------
+        PeerRole::Ebgp => {
+            let prepend = if c.confed() { CONFED_ID } else { M_AS };
+            let base: Segs = stored_segs.clone().unwrap_or_default().into_iter().filter(|(t, _)| *t == T_SET || *t == T_SEQ).collect();
+            st.hit("ebgp/as-path");
+            if out_paths.len() != 1 {
+                v.push((format!("C09/ebgp/prepend-count/{shape}"), format!("expected exactly one AS_PATH with AS {prepend} prepended, found {} AS_PATH attributes", out_paths.len())));
+            } else {
+                match out_paths[0].binary().ok_or_else(|| "no binary value".to_string()).and_then(|b| parse_segs(b)) {
+                    Err(e) => v.push((format!("C09/ebgp/prepend-count/{shape}"), format!("AS_PATH sent to eBGP peer is malformed: {e}"))),
+                    Ok(o) => {
+                        if o.iter().any(|(t, _)| *t == T_CSEQ || *t == T_CSET) {
+                            v.push(("C09/ebgp/confed-segment-leaked".into(), format!("confederation segment sent to eBGP peer: stored {} sent {}", segs_brief(&stored_segs.clone().unwrap_or_default()), segs_brief(&o))));
+                        }
+                        let want = count_as(&base, prepend) + 1;
+                        let got = count_as(&o, prepend);
+                        if got != want {
+                            v.push((format!("C09/ebgp/prepend-count/{shape}"), format!("AS {prepend} must occur {want} time(s) after prepending exactly once, occurs {got}: stored {} sent {}", segs_brief(&base), segs_brief(&o))));
+                        } else if !(o.first().is_some_and(|(t, a)| *t == T_SEQ && a.first() == Some(&prepend))) {
+                            v.push((format!("C09/ebgp/prepend-position/{shape}"), format!("AS {prepend} is not the first AS of a leading AS_SEQUENCE: sent {}", segs_brief(&o))));
+                        } else {
+                            // remove the prepended AS; the remainder must be the stored path without confed segments
+                            let mut rest = o.clone();
+                            rest[0].1.remove(0);
+                            if rest[0].1.is_empty() {
+                                rest.remove(0);
+                            }
+                            let rest: Segs = rest.into_iter().filter(|(t, _)| *t == T_SET || *t == T_SEQ).collect();
+                            if normalise(&rest) != normalise(&base) {
+                                v.push((format!("C09/ebgp/as-path-content/{shape}"), format!("path behind the prepended AS differs from the stored path: stored {} sent {}", segs_brief(&base), segs_brief(&o))));
+                            }
+                        }
+                    }
+                }
+            }
+            for (code, name, sig) in [
+                (Attr::LOCAL_PREF, "LOCAL_PREF", "C09/ebgp/local-pref-leaked"),
+                (Attr::ORIGINATOR_ID, "ORIGINATOR_ID", "C09/ebgp/originator-id-leaked"),
+                (Attr::CLUSTER_LIST, "CLUSTER_LIST", "C09/ebgp/cluster-list-leaked"),
+                (Attr::AIGP, "AIGP", "C09/ebgp/aigp-leaked"),
+            ] {
+                st.hit("ebgp/ibgp-only-attrs-removed");
+                if !find_all(attrs, code).is_empty() {
+                    v.push((sig.into(), format!("{name} sent to an eBGP peer")));
+                }
+            }
+            // received MED: only a MED learned from a peer counts as "received";
+            // a MED on a locally originated route or set by export policy may stay.
+            if mask & A_MED != 0 && is_peer {
+                st.hit("ebgp/received-med-removed");
+                for m in find_all(attrs, Attr::MULTI_EXIT_DESC) {
+                    let val = m.value();
+                    if !(pol == 4 && val == Some(POLICY_MED)) {
+                        v.push(("C09/ebgp/received-med-leaked".into(), format!("MED {:?} received from {} sent to an eBGP peer (policy {polname})", val, SRC_NAMES[p.kind])));
+                    }
+                }
+            }
+            // next hop self unless export policy set it
+            st.hit("ebgp/nexthop-self");
+            let mut ok = match nh {
+                Some(n) => is_self_nh(n, &s.ctx),
+                None => s.nhk.flowspec, // RFC 8955: Flowspec carries no next hop
+            };
+            if !ok && pol == 1 {
+                ok = nh.is_some_and(|n| n.addr() == policy_nh_addr(s.nhk.v6));
+            }
+            if !ok && pol == 3 {
+                ok = p.nexthop.is_some() && *nh == p.nexthop;
+            }
+            // locally originated route with an explicitly configured next hop
+            // (third-party next hop, RFC 4271 5.1.3): accepted reading.
+            if !ok && p.kind == 5 {
+                ok = p.nexthop.is_some_and(|n| !n.addr().is_unspecified()) && *nh == p.nexthop;
+            }
+            if !ok {
+                v.push((format!("C09/ebgp/nexthop-not-self/{polclass}/{nhname}"), format!("next hop sent to eBGP peer is {} (self = {}, stored {}, source {})", nh_str(nh), s.ctx.local_addr, nh_str(&p.nexthop), SRC_NAMES[p.kind])));
+            }
+        }
+        // ---- iBGP receivers ------------------------------------------------
+        PeerRole::Ibgp | PeerRole::IbgpRrClient => {
+            st.hit("ibgp/local-pref-present");
+            let lps = find_all(attrs, Attr::LOCAL_PREF);
+            if lps.is_empty() {
+                v.push(("C09/ibgp/local-pref-missing".into(), format!("no LOCAL_PREF sent to iBGP peer (stored: {})", if mask & A_LP != 0 { "present" } else { "absent" })));
+            } else {
+                *st.lp_obs.entry((mask & A_LP != 0, lps[0].value())).or_insert(0) += 1;
+            }
+            st.hit("ibgp/as-path-untouched");
+            match &stored_segs {
+                None => {
+                    if out_paths.iter().any(|a| a.binary().is_some_and(|b| !b.is_empty())) {
+                        v.push((format!("C09/ibgp/as-path-modified/{shape}"), "stored route has no AS_PATH, a non-empty AS_PATH was sent to iBGP peer".into()));
+                    }
+                }
+                Some(segs) => {
+                    let want = encode_segs(segs);
+                    if out_paths.len() != 1 || out_paths[0].binary() != Some(&want) {
+                        v.push((format!("C09/ibgp/as-path-modified/{shape}"), format!("AS_PATH sent to iBGP peer is not byte-identical to the stored one: stored {} sent {:?}", segs_brief(segs), out_paths.first().and_then(|a| a.binary()).map(|b| parse_segs(b).map(|x| segs_brief(&x))))));
+                    }
+                }
+            }
+            st.hit("ibgp/nexthop-untouched");
+            let mut ok = *nh == p.nexthop;
+            if !ok && pol == 1 {
+                ok = nh.is_some_and(|n| n.addr() == policy_nh_addr(s.nhk.v6));
+            }
+            if !ok && pol == 2 {
+                ok = nh.is_some_and(|n| is_self_nh(&n, &s.ctx));
+            }
+            // nothing stored (or, for a locally originated route, the 0.0.0.0/::
+            // placeholder): the speaker has to fill in its own address.
+            if !ok && (p.nexthop.is_none() || (!is_peer && p.nexthop.is_some_and(|n| n.addr().is_unspecified()))) {
+                ok = nh.is_some_and(|n| is_self_nh(&n, &s.ctx));
+            }
+            if !ok {
+                v.push((format!("C09/ibgp/nexthop-modified/{polclass}/{nhname}"), format!("next hop sent to iBGP peer is {}, stored {} (source {})", nh_str(nh), nh_str(&p.nexthop), SRC_NAMES[p.kind])));
+            }
+            // reflected routes
+            let reflected = c.d[F_RR] != 0 && matches!(p.role, Some(PeerRole::Ibgp | PeerRole::IbgpRrClient));
+            let origs = find_all(attrs, Attr::ORIGINATOR_ID);
+            let cls = find_all(attrs, Attr::CLUSTER_LIST);
+            if reflected {
+                st.hit("rr/originator-id");
+                let had = mask & A_ORIG != 0;
+                let want = if had { STORED_ORIG } else { p.source.router_id };
+                let shape_o = if had { "present" } else { "absent" };
+                if origs.is_empty() {
+                    v.push((format!("C09/rr/originator-id/{shape_o}-missing"), "reflected route sent without ORIGINATOR_ID".into()));
+                } else if origs.len() > 1 {
+                    v.push((format!("C09/rr/originator-id/{shape_o}-duplicated"), format!("{} ORIGINATOR_ID attributes on reflected route", origs.len())));
+                } else if origs[0].value() != Some(want) {
+                    v.push((format!("C09/rr/originator-id/{shape_o}-wrong-value"), format!("ORIGINATOR_ID {:?}, expected {:#010x}", origs[0].value(), want)));
+                }
+                st.hit("rr/cluster-list");
+                let cid = if c.d[F_RR] == 2 { expl_cluster() } else { router_id() };
+                let mut want_cl = cid.octets().to_vec();
+                let hadc = mask & A_CL != 0;
+                if hadc {
+                    want_cl.extend_from_slice(&STORED_CL);
+                }
+                let shape_c = if hadc { "present" } else { "absent" };
+                if cls.is_empty() {
+                    v.push((format!("C09/rr/cluster-list/{shape_c}-missing"), "reflected route sent without CLUSTER_LIST".into()));
+                } else if cls.len() > 1 || cls[0].binary() != Some(&want_cl) {
+                    v.push((format!("C09/rr/cluster-list/{shape_c}-wrong"), format!("CLUSTER_LIST {:?}, expected local cluster-id {cid} prepended to the old list: {:?}", cls[0].binary(), want_cl)));
+                }
+            } else {
+                if origs.len() > (mask & A_ORIG != 0) as usize {
+                    st.pair_obs[1][ri][p.kind] += 1;
+                }
+                if cls.first().and_then(|a| a.binary()).map(|b| b.len()).unwrap_or(0) > if mask & A_CL != 0 { 8 } else { 0 } {
+                    st.pair_obs[2][ri][p.kind] += 1;
+                }
+            }
+        }
+        // ---- confederation-eBGP receivers ----------------------------------
+        PeerRole::ConfedEbgp => {
+            st.hit("confed-ebgp/member-as");
+            let ok = out_paths.len() == 1
+                && out_paths[0]
+                    .binary()
+                    .and_then(|b| parse_segs(b).ok())
+                    .is_some_and(|o| o.first().is_some_and(|(t, a)| *t == T_CSEQ && a.first() == Some(&M_AS)));
+            if !ok {
+                v.push((format!("C09/confed-ebgp/member-as-missing/{shape}"), format!("member AS {M_AS} is not first in a leading AS_CONFED_SEQUENCE: sent {:?}", out_paths.first().and_then(|a| a.binary()).map(|b| parse_segs(b).map(|x| segs_brief(&x))))));
+            }
+        }
+        // ---- route-server clients: the statement only gives the boundary rule
+        PeerRole::RsClient => {}
+    }
+
+    // ---- all receivers -----------------------------------------------------
+    if p.stale {
+        st.hit("llgr-stale-community");
+        let has = find_all(attrs, Attr::COMMUNITY).iter().any(|a| a.binary().is_some_and(|b| b.chunks(4).any(|x| x == LLGR_STALE)));
+        if !has {
+            v.push((format!("C09/llgr-stale-community-missing/{}", ROLE_NAMES[ri]), "route of an LLGR-stale source sent without the LLGR_STALE community".into()));
+        }
+    }
+    if mask & A_UT != 0 {
+        st.hit("unknown-transitive");
+        let f = find_all(attrs, UT_CODE);
+        if f.len() != 1 || f[0].binary() != Some(&vec![1u8, 2, 3]) {
+            v.push(("C09/unknown-transitive/dropped".into(), format!("unknown optional transitive attribute not forwarded intact ({} copies)", f.len())));
+        } else if f[0].flags() & Attr::FLAG_PARTIAL == 0 || f[0].flags() & 0xC0 != 0xC0 {
+            v.push(("C09/unknown-transitive/partial-bit".into(), format!("unknown optional transitive attribute forwarded with flags {:#04x} (Partial not set)", f[0].flags())));
+        }
+    }
+    if mask & A_UNT != 0 {
+        st.hit("unknown-nontransitive");
+        if !find_all(attrs, UNT_CODE).is_empty() {
+            v.push(("C09/unknown-nontransitive/forwarded".into(), "unknown optional non-transitive attribute forwarded".into()));
+        }
+    }
+    v
+}
+
+// ---------------------------------------------------------------------------
+// Part A: one case, the enumerations, the parallel runner
+// ---------------------------------------------------------------------------
+struct Shared {
+    outcomes: Vec<Mutex<HashSet<u64>>>,
+    pending_mismatch: AtomicU64,
+}
+
+impl Shared {
+    fn new() -> Self {
+        Shared { outcomes: (0..64).map(|_| Mutex::new(HashSet::new())).collect(), pending_mismatch: AtomicU64::new(0) }
+    }
+    fn outcome(&self, h: u64) {
+        self.outcomes[(h % 64) as usize].lock().unwrap().insert(h);
+    }
+    fn distinct(&self) -> u64 {
+        self.outcomes.iter().map(|m| m.lock().unwrap().len() as u64).sum()
+    }
+}
+
+struct Local {
+    rep: Report,
+    st: Stats,
+}
+
+fn eval_case(c: &Case, loc: &mut Local, sh: &Shared, verbose: bool, with_pending: bool) {
+    let s = setup(c);
+    loc.rep.evaluations += 1;
+    let sink = match drive(&s) {
+        Ok(k) => k,
+        Err(e) => {
+            // a panic prevents every specified outcome for this (source, receiver) pair
+            let loc_s = e.rsplit('@').next().unwrap_or("").trim().to_string();
+            loc.rep.violation(Violation {
+                sig: format!("C09/panic/{}/{}", ROLE_NAMES[c.d[F_RECV]], AP_NAMES[c.d[F_AP]]),
+                what: format!("process_nlri_change panicked: {e} ({loc_s})"),
+                case: c.to_string(),
+            });
+            return;
+        }
+    };
+    if verbose {
+        eprintln!("case {}", c.to_string());
+        eprintln!("  receiver role={:?} local_asn={} confed_id={} local_addr={} cluster_id={:?} max={}", s.ctx.role, s.ctx.local_asn, s.ctx.confederation_id, s.ctx.local_addr, s.cluster_id, s.effective_max);
+        for p in &s.paths {
+            eprintln!("  in  pid={} src={} addr={} asn={}/{} rid={:#x} stale={} nh={} attrs={:?}", p.pid, SRC_NAMES[p.kind], p.source.remote_addr, p.source.remote_asn, p.source.local_asn, p.source.router_id, p.stale, nh_str(&p.nexthop), brief_attrs(&p.attrs));
+        }
+        for (pid, nh, a, src) in &sink.reach {
+            eprintln!("  out reach pid={} src={} nh={} attrs={:?}", pid, src, nh_str(nh), brief_attrs(a));
+        }
+        for pid in &sink.unreach {
+            eprintln!("  out unreach pid={pid}");
+        }
+    }
+    let mut hasher = std::collections::hash_map::DefaultHasher::new();
+    c.d[F_RECV].hash(&mut hasher);
+    for (i, p) in s.paths.iter().enumerate() {
+        // non-add-path: only the best (first) path is a candidate, reported with path id 0
+        if s.effective_max == 1 && i > 0 {
+            break;
+        }
+        let want_pid = if s.effective_max == 1 { 0 } else { p.pid };
+        let outs: Vec<&(u32, Nh, Attrs, IpAddr)> = sink.reach.iter().filter(|r| r.0 == want_pid).collect();
+        if outs.len() > 1 {
+            loc.rep.machinery_error = Some(format!("path id {want_pid} reached the sink {} times in {}", outs.len(), c.to_string()));
+        }
+        let out = outs.first().map(|r| (&r.1, &r.2));
+        (i, out.is_some()).hash(&mut hasher);
+        if let Some((nh, a)) = out {
+            nh.hash(&mut hasher);
+            a.hash(&mut hasher);
+        }
+        for (sig, what) in check_path(c, &s, p, out, &mut loc.st) {
+            if verbose {
+                eprintln!("  VIOLATION {sig}: {what}");
+            }
+            loc.rep.violation(Violation { sig, what, case: c.to_string() });
+        }
+    }
+    if !sink.unreach.is_empty() {
+        // fresh ExportMap: nothing was advertised before, nothing can be withdrawn
+        loc.st.note("obs/unreach-on-fresh-export-map".into());
+    }
+    sh.outcome(hasher.finish());
+    if with_pending {
+        // production sink: what PendingTx turns into UPDATEs must be what the recording sink saw
+        match drive_pending(&s) {
+            Ok(p) => {
+                let mut a: Vec<(u32, Nh, Attrs)> = sink.reach.iter().map(|r| (r.0, r.1, Arc::clone(&r.2))).collect();
+                a.sort_by_key(|x| x.0);
+                if a != p {
+                    sh.pending_mismatch.fetch_add(1, AOrd::Relaxed);
+                    if verbose {
+                        eprintln!("  PendingTx output differs from recording sink");
+                    }
+                }
+            }
+            Err(_) => {
+                sh.pending_mismatch.fetch_add(1, AOrd::Relaxed);
+            }
+        }
+    }
+}
+
+fn brief_attrs(a: &Attrs) -> Vec<String> {
+    a.iter()
+        .map(|x| {
+            if x.code() == Attr::AS_PATH {
+                format!("AS_PATH{}", x.binary().map(|b| parse_segs(b).map(|s| segs_brief(&s)).unwrap_or_else(|e| format!("<malformed {e}>"))).unwrap_or_default())
+            } else if let Some(v) = x.value() {
+                format!("{}={}", x.code(), v)
+            } else {
+                format!("{}(f={:#x})={}", x.code(), x.flags(), report::hex(x.binary().map(|b| &b[..b.len().min(12)]).unwrap_or(&[])))
+            }
+        })
+        .collect()
+}
+
+fn par_run<F>(n: u64, f: F) -> (Report, Stats)
+where
+    F: Fn(u64, &mut Local) + Sync,
+{
+    let workers = bfs::workers();
+    let next = AtomicU64::new(0);
+    let block: u64 = (n / (workers as u64 * 64)).clamp(1, 8192);
+    let merged: Mutex<Vec<Local>> = Mutex::new(Vec::new());
+    std::thread::scope(|s| {
+        for _ in 0..workers {
+            std::thread::Builder::new()
+                .stack_size(32 << 20)
+                .spawn_scoped(s, || {
+                    let mut local = Local { rep: Report::new("C09", "hd-c09"), st: Stats::default() };
+                    loop {
+                        let start = next.fetch_add(block, AOrd::Relaxed);
+                        if start >= n {
+                            break;
+                        }
+                        for i in start..(start + block).min(n) {
+                            f(i, &mut local);
+                        }
+                    }
+                    merged.lock().unwrap().push(local);
+                })
+                .expect("spawn");
+        }
+    });
     let mut rep = Report::new("C09", "hd-c09");
-    rep.machinery_error = Some("harness not built yet".into());
+    rep.exhaustive = true;
+    let mut st = Stats::default();
+    for l in merged.into_inner().unwrap() {
+        rep.merge(l.rep);
+        st.merge(l.st);
+    }
+    (rep, st)
+}
+
+/// quick tier: every PAIR of values of the six content factors (max, attrs,
+/// aspath, nh, pol, llgr) occurs in some row; every row is crossed with the
+/// FULL source x receiver x RR x confederation matrix.  Hence all pairs of all
+/// ten factors are covered (role factors even jointly with every content pair).
+fn content_rows() -> Vec<[usize; 6]> {
+    let dims = [DIMS[F_MAX], DIMS[F_ATTRS], DIMS[F_AP], DIMS[F_NH], DIMS[F_POL], DIMS[F_LLGR]];
+    let mut rows: BTreeSet<[usize; 6]> = BTreeSet::new();
+    for i in 0..6 {
+        for j in (i + 1)..6 {
+            for a in 0..dims[i] {
+                for b in 0..dims[j] {
+                    let mut r = [0usize; 6];
+                    for k in 0..6 {
+                        r[k] = (a * 7 + b * 13 + k * 3 + a * b) % dims[k];
+                    }
+                    r[i] = a;
+                    r[j] = b;
+                    rows.insert(r);
+                }
+            }
+        }
+    }
+    rows.into_iter().collect()
+}
+
+fn run_export(rep: &mut Report, thorough: bool) {
+    let sh = Shared::new();
+    let role_dims = [DIMS[F_SRC], DIMS[F_RECV], DIMS[F_RR], DIMS[F_CONFED]];
+    let role_n: u64 = role_dims.iter().map(|d| *d as u64).product();
+    let skipped = AtomicU64::new(0);
+    let (r, st, space) = if thorough {
+        let n: u64 = DIMS.iter().map(|d| *d as u64).product();
+        let (r, st) = par_run(n, |i, loc| {
+            let c = Case::from_digits(&crate::verif::vx::enumr::digits(i, &DIMS));
+            if !c.feasible() {
+                skipped.fetch_add(1, AOrd::Relaxed);
+                return;
+            }
+            eval_case(&c, loc, &sh, false, false);
+        });
+        (r, st, format!("full product of all ten factors ({} index tuples)", n))
+    } else {
+        let rows = content_rows();
+        // verify pairwise completeness of the content rows (machinery self-check)
+        let dims = [DIMS[F_MAX], DIMS[F_ATTRS], DIMS[F_AP], DIMS[F_NH], DIMS[F_POL], DIMS[F_LLGR]];
+        for i in 0..6 {
+            for j in (i + 1)..6 {
+                let have: HashSet<(usize, usize)> = rows.iter().map(|r| (r[i], r[j])).collect();
+                if have.len() != dims[i] * dims[j] {
+                    rep.machinery_error = Some(format!("content rows are not pairwise complete for factors {i},{j}"));
+                }
+            }
+        }
+        let n = rows.len() as u64 * role_n;
+        let (r, st) = par_run(n, |i, loc| {
+            let row = &rows[(i / role_n) as usize];
+            let rd = crate::verif::vx::enumr::digits(i % role_n, &role_dims);
+            let c = Case { d: [rd[0], rd[1], rd[2], rd[3], row[0], row[1], row[2], row[3], row[4], row[5]] };
+            if !c.feasible() {
+                skipped.fetch_add(1, AOrd::Relaxed);
+                return;
+            }
+            eval_case(&c, loc, &sh, false, true);
+        });
+        (r, st, format!("{} pairwise-complete rows over (max,attrs,aspath,nh,policy,llgr) x full {}-cell source x receiver x RR x confed matrix ({} index tuples)", rows.len(), role_n, n))
+    };
+    let evals = r.evaluations;
+    let distinct = sh.distinct();
+    rep.merge(r);
+    rep.distinct_nontrivial += distinct;
+    rep.notes.push(format!(
+        "export: {space}; {evals} feasible canonical cases executed against process_nlri_change, {} infeasible/non-canonical tuples skipped (ConfedEbgp role without confederation, RR-client role without RR, LLGR-stale local/kernel source); {distinct} distinct (receiver role, per-path outcome) fingerprints",
+        skipped.load(AOrd::Relaxed)
+    ));
+    let clauses: Vec<String> = st.clause.iter().map(|(k, v)| format!("{k}={v}")).collect();
+    rep.notes.push(format!("export: clause decisions: {}", clauses.join(" ")));
+    let mut sent = Vec::new();
+    for ri in 0..5 {
+        for si in 0..8 {
+            if st.sent[ri][si] + st.withheld[ri][si] > 0 {
+                sent.push(format!("{}->{}:{}/{}", SRC_NAMES[si], ROLE_NAMES[ri], st.sent[ri][si], st.withheld[ri][si]));
+            }
+        }
+    }
+    rep.notes.push(format!("export: advertised/not-advertised where the statement allows advertising (source->receiver): {}", sent.join(" ")));
+    for (k, v) in &st.obs {
+        rep.add(k, *v);
+    }
+    for k in 0..3 {
+        for ri in 0..5 {
+            for si in 0..8 {
+                if st.pair_obs[k][ri][si] > 0 {
+                    rep.add(&format!("{}/{}->{}", PAIR_OBS[k], SRC_NAMES[si], ROLE_NAMES[ri]), st.pair_obs[k][ri][si]);
+                }
+            }
+        }
+    }
+    for ((had, val), n) in &st.lp_obs {
+        rep.add(&format!("obs/ibgp-local-pref-value/{}/{:?}", if *had { "stored-200" } else { "absent" }, val), *n);
+    }
+    if thorough {
+        rep.notes.push("export: production-sink cross-check (PendingTx) is run in the quick tier only".into());
+    } else {
+        rep.add("export/pendingtx-differs-from-recording-sink", sh.pending_mismatch.load(AOrd::Relaxed));
+        rep.notes.push(format!("export: production sink cross-check (every case): the reach entries PendingTx::drain_messages produces differ from what the recording sink was handed in {} cases", sh.pending_mismatch.load(AOrd::Relaxed)));
+    }
+    rep.notes.push("assume: cluster_id handed to process_nlri_change is derived as accept_connection does (Some(explicit or router-id) for iBGP receivers, None otherwise); receiver local_asn = confederation id for Ebgp/RsClient sessions when a confederation is configured (Global::add_peer)".into());
+    rep.notes.push("assume: a locally originated route with an explicit (non-unspecified) next hop may keep it towards eBGP peers (third-party next hop); a missing or, for local/kernel routes, unspecified next hop may be replaced by self towards iBGP peers; Flowspec carries no next hop".into());
+}
+
+// ---------------------------------------------------------------------------
+// entry point
+// ---------------------------------------------------------------------------
+pub(crate) fn run(replay: Option<&str>) -> Report {
+    let mut rep = Report::new("C09", "hd-c09");
+    rep.rule = "export: a case = one tuple (source kind, receiver role, RR config, confederation, add-path max, attribute presence set, AS_PATH shape, next-hop kind, export policy, LLGR-stale) that is feasible in the daemon and canonical; tuples are distinct by construction, distinct_nontrivial counts distinct observed outcomes (receiver role, per path: advertised?, next hop, full attribute vector) plus distinct inbound inputs (AS_PATH bytes x session config; rx_update / live-session tuples)".into();
+    if let Some(case) = replay {
+        return replay_case(rep, case);
+    }
+    let thorough = rep.thorough();
+    run_export(&mut rep, thorough);
+    for c in ["x:0.2.1.0.0.255.3.0.0.0", "x:3.2.2.1.1.44.6.2.3.1", "x:5.0.0.1.0.2.7.5.1.0", "x:2.4.1.1.1.128.4.1.4.1"] {
+        if let Some(c) = Case::parse(c) {
+            rep.samples.push(c.to_string());
+        }
+    }
+    run_inbound_aspath(&mut rep, thorough);
+    run_inbound_rx_update(&mut rep, thorough);
+    run_inbound_live(&mut rep, thorough);
+    rep
+}
+
+fn replay_case(mut rep: Report, case: &str) -> Report {
+    if let Some(c) = Case::parse(case) {
+        if !c.feasible() {
+            rep.machinery_error = Some(format!("replay: case {case} is not feasible/canonical"));
+            return rep;
+        }
+        let sh = Shared::new();
+        let mut loc = Local { rep: Report::new("C09", "hd-c09"), st: Stats::default() };
+        eval_case(&c, &mut loc, &sh, true, true);
+        rep.merge(loc.rep);
+        rep.distinct_nontrivial = sh.distinct();
+        return rep;
+    }
+    if case.starts_with("in-") {
+        return replay_inbound(rep, case);
+    }
+    rep.machinery_error = Some(format!("replay: cannot parse case {case:?}"));
+    rep
+}
+
+// ---------------------------------------------------------------------------
+// Part B1: is_as_loop at function level
+// ---------------------------------------------------------------------------
+const SEG_NAMES: [&str; 5] = ["?", "set", "seq", "confed-seq", "confed-set"];
+
+/// (label, session local AS, confederation id) as PeerSession holds them
+fn loop_cfgs() -> Vec<(&'static str, u32, u32)> {
+    vec![
+        ("noconfed", M_AS, 0),
+        ("confed-internal-session", M_AS, CONFED_ID),
+        ("confed-external-session", CONFED_ID, CONFED_ID),
+    ]
+}
+
+fn needle_name(asn: u32, local_asn: u32, cid: u32) -> &'static str {
+    if asn == local_asn && asn == cid {
+        "session-local-as=confed-id"
+    } else if asn == local_asn {
+        "session-local-as"
+    } else if cid != 0 && asn == cid {
+        "confed-id"
+    } else if asn == M_AS {
+        "member-as-on-external-session"
+    } else if asn == MEMBER_PEER_AS {
+        "other-member-as"
+    } else {
+        "foreign-as"
+    }
+}
+
+/// All AS_PATH layouts of the bounded space, with `needle` at every position
+/// (and once without it): 1..=3 segments, each of the four types, each 1..=3
+/// ASes long; plus full 255-AS first/second segments.
+fn loop_paths(needle: u32, thorough: bool) -> Vec<(Segs, Option<(usize, usize)>)> {
+    let mut out = Vec::new();
+    let lens: &[usize] = if thorough { &[1, 2, 3] } else { &[1, 3] };
+    let max_seg = 3;
+    for nseg in 1..=max_seg {
+        let tdims = vec![4usize; nseg];
+        let ldims = vec![lens.len(); nseg];
+        for ti in 0..crate::verif::vx::enumr::product_size(&tdims) {
+            let ts = crate::verif::vx::enumr::digits(ti, &tdims);
+            for li in 0..crate::verif::vx::enumr::product_size(&ldims) {
+                let ls = crate::verif::vx::enumr::digits(li, &ldims);
+                let mut filler = 70_000u32;
+                let base: Segs = (0..nseg)
+                    .map(|k| {
+                        let v: Vec<u32> = (0..lens[ls[k]])
+                            .map(|_| {
+                                filler += 1;
+                                filler
+                            })
+                            .collect();
+                        ((ts[k] + 1) as u8, v)
+                    })
+                    .collect();
+                out.push((base.clone(), None));
+                for k in 0..nseg {
+                    for pos in 0..base[k].1.len() {
+                        let mut p = base.clone();
+                        p[k].1[pos] = needle;
+                        out.push((p, Some((k, pos))));
+                    }
+                }
+            }
+        }
+    }
+    // full segments
+    for t in 1..=4u8 {
+        for pos in [0usize, 127, 254] {
+            let mut v = long_seq();
+            v[pos] = needle;
+            out.push((vec![(t, v.clone())], Some((0, pos))));
+            out.push((vec![(t, v), (T_SEQ, vec![70_001])], Some((0, pos))));
+            out.push((vec![(t, long_seq()), (T_SEQ, vec![needle])], Some((1, 0))));
+        }
+    }
+    out
+}
+
+fn eval_as_loop(segs: &Segs, at: Option<(usize, usize)>, needle: u32, cfg: (&str, u32, u32), rep: &mut Report, fp: &mut u64, verbose: bool) {
+    let (label, local_asn, cid) = cfg;
+    let bytes = encode_segs(segs);
+    let case = format!("in-fn:{label}:{needle}:{}", report::hex(&bytes));
+    let attr: Attrs = Arc::new(vec![Attr::new_with_value(Attr::ORIGIN, 0).unwrap(), Attr::new_with_bin(Attr::AS_PATH, bytes).unwrap()]);
+    rep.evaluations += 1;
+    let got = report::catch(|| is_as_loop(&attr, local_asn, cid));
+    // reference: plain scan of every AS of every segment
+    let contains = |a: u32| segs.iter().any(|(_, v)| v.contains(&a));
+    let must = contains(local_asn) || (cid != 0 && contains(cid));
+    if verbose {
+        eprintln!("is_as_loop(path={}, local_asn={local_asn}, confed_id={cid}) = {:?}; reference: loop={must}", segs_brief(segs), got);
+    }
+    let kind = at.map(|(k, _)| format!("{}-in-{}", needle_name(needle, local_asn, cid), SEG_NAMES[segs[k].0 as usize])).unwrap_or_else(|| "no-needle".into());
+    match got {
+        Err(e) => {
+            if must {
+                rep.violation(Violation { sig: format!("C09/inbound-loop/as-path-panic/{kind}"), what: format!("is_as_loop panicked on a looping AS_PATH: {e}"), case });
+            } else {
+                rep.add("obs/inbound/is_as_loop-panic-on-loop-free-path", 1);
+            }
+        }
+        Ok(true) => {
+            *fp += 1;
+            if !must {
+                rep.add(&format!("obs/inbound/loop-reported-without-local-as/{label}/{kind}"), 1);
+            }
+        }
+        Ok(false) => {
+            if must {
+                rep.violation(Violation {
+                    sig: format!("C09/inbound-loop/as-path/{kind}/{label}"),
+                    what: format!("AS_PATH {} contains AS {needle} (session local AS {local_asn}, confederation id {cid}) but is_as_loop returns false: the UPDATE would be installed", segs_brief(segs)),
+                    case,
+                });
+            } else if at.is_some() && needle == M_AS && local_asn != M_AS {
+                rep.add(&format!("obs/inbound/member-as-on-external-session-not-a-loop/{}", SEG_NAMES[segs[at.unwrap().0].0 as usize]), 1);
+            }
+        }
+    }
+}
+
+fn run_inbound_aspath(rep: &mut Report, thorough: bool) {
+    let mut distinct: HashSet<(Vec<u8>, u32, u32)> = HashSet::new();
+    let mut n = 0u64;
+    let mut loops = 0u64;
+    let mut sub = Report::new("C09", "hd-c09");
+    for cfg in loop_cfgs() {
+        let mut needles = vec![cfg.1];
+        for a in [cfg.2, M_AS, MEMBER_PEER_AS] {
+            if a != 0 && !needles.contains(&a) {
+                needles.push(a);
+            }
+        }
+        for needle in needles {
+            for (segs, at) in loop_paths(needle, thorough) {
+                eval_as_loop(&segs, at, needle, cfg, &mut sub, &mut loops, false);
+                distinct.insert((encode_segs(&segs), cfg.1, cfg.2));
+                n += 1;
+            }
+        }
+    }
+    // absent AS_PATH attribute: nothing to loop on
+    let none: Attrs = Arc::new(vec![Attr::new_with_value(Attr::ORIGIN, 0).unwrap()]);
+    if report::catch(|| is_as_loop(&none, M_AS, CONFED_ID)).unwrap_or(true) {
+        sub.add("obs/inbound/loop-reported-without-as-path", 1);
+    }
+    sub.distinct_nontrivial = distinct.len() as u64;
+    rep.notes.push(format!(
+        "inbound/is_as_loop: {n} calls over 3 session configs (no confederation; confederation, internal session; confederation, external session) x needle AS in {{session local AS, confederation id, member AS, other member AS}} x all layouts of 1..=3 segments x 4 segment types x lengths {} x every needle position + full 255-AS segments; {} distinct (path, config) inputs; {loops} calls reported a loop",
+        if thorough { "{1,2,3}" } else { "{1,3}" },
+        distinct.len()
+    ));
+    rep.notes.push("assume: on an Ebgp/RsClient session inside a confederation the session's local AS is the confederation id (Global::add_peer); the member AS appearing in a path received there is not asserted to be a loop (RFC 5065 4: member AS numbers are not visible outside) -- counted under obs/inbound/member-as-on-external-session-not-a-loop".into());
+    rep.merge(sub);
+}
+
+fn replay_inbound_fn(mut rep: Report, case: &str) -> Report {
+    // in-fn:<label>:<needle>:<hex path>
+    let parts: Vec<&str> = case.split(':').collect();
+    if parts.len() != 4 {
+        rep.machinery_error = Some(format!("replay: bad case {case}"));
+        return rep;
+    }
+    let Some(cfg) = loop_cfgs().into_iter().find(|c| c.0 == parts[1]) else {
+        rep.machinery_error = Some(format!("replay: unknown config {}", parts[1]));
+        return rep;
+    };
+    let needle: u32 = parts[2].parse().unwrap_or(0);
+    let segs = match parse_segs(&report::unhex(parts[3])) {
+        Ok(s) => s,
+        Err(e) => {
+            rep.machinery_error = Some(format!("replay: bad path: {e}"));
+            return rep;
+        }
+    };
+    let at = segs.iter().enumerate().find_map(|(k, (_, v))| v.iter().position(|a| *a == needle).map(|p| (k, p)));
+    let mut fp = 0;
+    eval_as_loop(&segs, at, needle, cfg, &mut rep, &mut fp, true);
+    rep
+}
+
+// ---------------------------------------------------------------------------
+// Part B2: PeerSession::rx_update (ORIGINATOR_ID / CLUSTER_LIST loop checks)
+// into a real TableManager
+// ---------------------------------------------------------------------------
+const ORIG_NAMES: [&str; 3] = ["absent", "local-router-id", "other"];
+const CL_NAMES: [&str; 6] = ["absent", "only-local", "local-last", "local-first", "local-middle", "foreign-only"];
+const RX_DIMS: [usize; 6] = [5, 3, 2, 3, 6, 2]; // role rr confed orig cl pre
+
+fn make_ctx() -> Arc<std::sync::Mutex<PeerContext>> {
+    // body of event::tests::make_context (a private test helper)
+    let fsm = crate::fsm::PeerFsm::new(u32::from(router_id()), M_AS, vec![], 90, 0, FnvHashMap::default());
+    let conn_arbiter = Arc::new(std::sync::Mutex::new(ConnArbiter::new(fsm)));
+    Arc::new(std::sync::Mutex::new(PeerContext {
+        conn_arbiter,
+        active_connect_cancel_tx: None,
+        active_connect_join_handle: None,
+        gr_state: crate::gr::GrState::new(),
+        gr_restart_timer: None,
+        llgr_family_timers: FnvHashMap::default(),
+        rtc_state: crate::rtc::RtcState::new(),
+        rtc_eor_timer: None,
+    }))
+}
+
+fn session_cluster_id(role: PeerRole, rr: usize) -> Option<Ipv4Addr> {
+    match role {
+        PeerRole::Ibgp | PeerRole::IbgpRrClient => Some(if rr == 2 { expl_cluster() } else { router_id() }),
+        _ => None,
+    }
+}
+
+/// cluster-id the router would use by configuration (also for sessions where
+/// the code keeps none): explicit when configured, router-id otherwise
+fn configured_cluster_id(rr: usize) -> Ipv4Addr {
+    if rr == 2 { expl_cluster() } else { router_id() }
+}
+
+fn cl_bytes(variant: usize, cid: Ipv4Addr) -> Option<Vec<u8>> {
+    let c = cid.octets();
+    let x = [7u8, 7, 7, 7];
+    let y = [8u8, 8, 8, 8];
+    let parts: Vec<[u8; 4]> = match variant {
+        0 => return None,
+        1 => vec![c],
+        2 => vec![x, c],
+        3 => vec![c, x],
+        4 => vec![x, c, y],
+        _ => vec![x, y],
+    };
+    Some(parts.concat())
+}
+
+/// benign AS_PATH a peer of `role` would send (no local AS, no confederation id)
+fn benign_segs(role: PeerRole) -> Segs {
+    match role {
+        PeerRole::Ebgp => vec![(T_SEQ, vec![EBGP_PEER_AS, 65200])],
+        PeerRole::RsClient => vec![(T_SEQ, vec![RS_PEER_AS, 65200])],
+        PeerRole::Ibgp | PeerRole::IbgpRrClient => vec![(T_SEQ, vec![65200])],
+        PeerRole::ConfedEbgp => vec![(T_CSEQ, vec![MEMBER_PEER_AS]), (T_SEQ, vec![65200])],
+    }
+}
+
+fn rx_attrs(role: PeerRole, med: u32, orig: Option<u32>, cl: Option<Vec<u8>>) -> Attrs {
+    let mut v = vec![
+        Attr::new_with_value(Attr::ORIGIN, 0).unwrap(),
+        Attr::new_with_bin(Attr::AS_PATH, encode_segs(&benign_segs(role))).unwrap(),
+        Attr::new_with_value(Attr::MULTI_EXIT_DESC, med).unwrap(),
+    ];
+    if matches!(role, PeerRole::Ibgp | PeerRole::IbgpRrClient | PeerRole::ConfedEbgp) {
+        v.push(Attr::new_with_value(Attr::LOCAL_PREF, 100).unwrap());
+    }
+    if let Some(o) = orig {
+        v.push(Attr::new_with_value(Attr::ORIGINATOR_ID, o).unwrap());
+    }
+    if let Some(c) = cl {
+        v.push(Attr::new_with_bin(Attr::CLUSTER_LIST, c).unwrap());
+    }
+    Arc::new(v)
+}
+
+type RibDump = Vec<(String, IpAddr, Vec<Attr>)>;
+
+fn rib_dump(tables: &TableHandle) -> RibDump {
+    let mut out: RibDump = Vec::new();
+    for ch in tables.collect_loc_rib_paths(Family::IPV4) {
+        for p in ch.current_paths.iter() {
+            out.push((ch.net.to_string(), p.source.remote_addr, (*p.attr).clone()));
+        }
+    }
+    out.sort_by(|a, b| (a.0.as_str(), a.1).cmp(&(b.0.as_str(), b.1)));
+    out
+}
+
+fn attrs_have_originator(attrs: &[Attr], rid: Ipv4Addr) -> bool {
+    attrs.iter().any(|a| a.code() == Attr::ORIGINATOR_ID && a.value() == Some(u32::from(rid)))
+}
+
+fn attrs_have_cluster(attrs: &[Attr], cid: Ipv4Addr) -> bool {
+    attrs
+        .iter()
+        .any(|a| a.code() == Attr::CLUSTER_LIST && a.binary().is_some_and(|b| b.chunks(4).any(|c| c == cid.octets())))
+}
+
+fn rx_case_string(d: &[usize]) -> String {
+    format!(
+        "in-rx:{} (session {} rr={} confed={} originator={} cluster-list={} pre-existing={})",
+        d.iter().map(|x| x.to_string()).collect::<Vec<_>>().join("."),
+        ROLE_NAMES[d[0]],
+        RR_NAMES[d[1]],
+        d[2],
+        ORIG_NAMES[d[3]],
+        CL_NAMES[d[4]],
+        d[5]
+    )
+}
+
+fn rx_feasible(d: &[usize]) -> bool {
+    let role = ROLES[d[0]];
+    if role == PeerRole::ConfedEbgp && d[2] == 0 {
+        return false;
+    }
+    if role == PeerRole::IbgpRrClient && d[1] == 0 {
+        return false;
+    }
+    true
+}
+
+fn eval_rx(d: &[usize], rt: &tokio::runtime::Runtime, rep: &mut Report, verbose: bool) {
+    let role = ROLES[d[0]];
+    let confed = d[2] == 1;
+    let cid_cfg = configured_cluster_id(d[1]);
+    let case = rx_case_string(d);
+    rep.evaluations += 1;
+    let remote: IpAddr = IpAddr::V4(Ipv4Addr::new(10, 3, 0, 1));
+    let p0: packet::Nlri = "10.0.1.0/24".parse().unwrap();
+    let q0: packet::Nlri = "10.0.2.0/24".parse().unwrap();
+    let orig = match d[3] {
+        0 => None,
+        1 => Some(u32::from(router_id())),
+        _ => Some(STORED_ORIG),
+    };
+    let cl = cl_bytes(d[4], cid_cfg);
+    let res = report::catch(|| {
+        rt.block_on(async {
+            let tables = make_tables(1);
+            let mut s = PeerSession::new_for_test(remote, make_ctx(), tables.clone());
+            s.export_ctx.role = role;
+            s.export_ctx.local_asn = sess_local_asn(role, confed);
+            s.export_ctx.confederation_id = if confed { CONFED_ID } else { 0 };
+            s.local_router_id = router_id();
+            s.cluster_id = session_cluster_id(role, d[1]);
+            s.source.insert(Family::IPV4, mk_peer_source(role, remote, Ipv4Addr::new(10, 3, 0, 1), confed));
+            let nh = Some(bgp::Nexthop::V4(Ipv4Addr::new(192, 0, 2, 1)));
+            if d[5] == 1 {
+                let reach = bgp::ReachNlri { family: Family::IPV4, entries: vec![packet::PathNlri::new(p0.clone())], nexthop: nh };
+                s.rx_update(Some(reach), None, rx_attrs(role, 1, None, None), 0).await;
+            }
+            let before = rib_dump(&tables);
+            let reach = bgp::ReachNlri { family: Family::IPV4, entries: vec![packet::PathNlri::new(p0.clone()), packet::PathNlri::new(q0.clone())], nexthop: nh };
+            s.rx_update(Some(reach), None, rx_attrs(role, 2, orig, cl.clone()), 0).await;
+            let after = rib_dump(&tables);
+            (before, after)
+        })
+    });
+    let (before, after) = match res {
+        Ok(x) => x,
+        Err(e) => {
+            rep.violation(Violation { sig: format!("C09/inbound-loop/rx-update-panic/{}", ROLE_NAMES[d[0]]), what: format!("rx_update panicked: {e}"), case });
+            return;
+        }
+    };
+    if d[5] == 1 && before.len() != 1 {
+        rep.machinery_error = Some(format!("rx_update control: benign UPDATE not installed ({} paths) in {case}", before.len()));
+    }
+    let is_ibgp = matches!(role, PeerRole::Ibgp | PeerRole::IbgpRrClient);
+    let orig_loop = d[3] == 1;
+    let cl_has_local = (1..=4).contains(&d[4]);
+    if verbose {
+        eprintln!("{case}\n  session cluster_id={:?} router-id={} configured cluster-id={cid_cfg}", session_cluster_id(role, d[1]), router_id());
+        eprintln!("  RIB before: {:?}", before.iter().map(|x| (x.0.clone(), brief_attrs(&Arc::new(x.2.clone())))).collect::<Vec<_>>());
+        eprintln!("  RIB after : {:?}", after.iter().map(|x| (x.0.clone(), brief_attrs(&Arc::new(x.2.clone())))).collect::<Vec<_>>());
+    }
+    let mut installed_loop = false;
+    if orig_loop && after.iter().any(|p| attrs_have_originator(&p.2, router_id())) {
+        installed_loop = true;
+        rep.violation(Violation {
+            sig: format!("C09/inbound-loop/originator-id/{}", ROLE_NAMES[d[0]]),
+            what: format!("UPDATE whose ORIGINATOR_ID is the local router-id {} was installed ({} path(s) in the RIB carry it)", router_id(), after.iter().filter(|p| attrs_have_originator(&p.2, router_id())).count()),
+            case: case.clone(),
+        });
+    }
+    if cl_has_local && after.iter().any(|p| attrs_have_cluster(&p.2, cid_cfg)) {
+        installed_loop = true;
+        if is_ibgp {
+            rep.violation(Violation {
+                sig: format!("C09/inbound-loop/cluster-list/{}/{}", CL_NAMES[d[4]], ROLE_NAMES[d[0]]),
+                what: format!("UPDATE whose CLUSTER_LIST contains the local cluster-id {cid_cfg} was installed"),
+                case: case.clone(),
+            });
+        } else {
+            // the daemon keeps no cluster-id for non-iBGP sessions; not asserted
+            rep.add(&format!("obs/inbound/cluster-list-with-configured-cluster-id-installed-on-non-ibgp-session/{}", ROLE_NAMES[d[0]]), 1);
+        }
+    }
+    if orig_loop || (cl_has_local && is_ibgp) {
+        if !installed_loop && before == after {
+            rep.add("inbound/rx-update/looping-update-left-rib-unchanged", 1);
+        } else if !installed_loop {
+            rep.add("obs/inbound/rx-update/looping-update-changed-rib-without-installing-loop-attrs", 1);
+        }
+    } else if after.len() == 2 {
+        rep.add("inbound/rx-update/loop-free-update-installed", 1);
+    } else {
+        rep.add("obs/inbound/rx-update/loop-free-update-not-installed", 1);
+    }
+}
+
+fn run_inbound_rx_update(rep: &mut Report, _thorough: bool) {
+    let rt = runtime();
+    let mut sub = Report::new("C09", "hd-c09");
+    let n = crate::verif::vx::enumr::product_size(&RX_DIMS);
+    let mut distinct: HashSet<Vec<usize>> = HashSet::new();
+    for i in 0..n {
+        let d = crate::verif::vx::enumr::digits(i, &RX_DIMS);
+        if !rx_feasible(&d) {
+            continue;
+        }
+        // RR config only matters through the cluster-id: for non-iBGP sessions
+        // keep none/explicit (the configured id differs), drop 'default'
+        if !matches!(ROLES[d[0]], PeerRole::Ibgp | PeerRole::IbgpRrClient) && d[1] == 1 {
+            continue;
+        }
+        if !distinct.insert(d.clone()) {
+            continue;
+        }
+        eval_rx(&d, &rt, &mut sub, false);
+    }
+    sub.distinct_nontrivial = distinct.len() as u64;
+    rep.notes.push(format!(
+        "inbound/rx_update: {} cases = session role x RR config x confederation x ORIGINATOR_ID {{absent, = local router-id, other}} x CLUSTER_LIST {{absent, only local cluster-id, local last/first/middle, foreign only}} x {{empty RIB, route for the same prefix already installed}}, each through PeerSession::rx_update (new_for_test session configured as accept_connection would) into a TableManager; RIB dumped before/after",
+        distinct.len()
+    ));
+    rep.notes.push("assume: CLUSTER_LIST containing the configured cluster-id is asserted to be a loop only on iBGP sessions (the daemon keeps a cluster-id only there; RFC 4456 defines the check for IBGP-learned routes); installs on other session kinds are counted under obs/inbound/cluster-list-with-configured-cluster-id-installed-on-non-ibgp-session".into());
+    rep.merge(sub);
+}
+
+// ---------------------------------------------------------------------------
+// Part B3: covering subset as real UPDATE bytes over a loopback session
+// (accept_connection + PeerSession::run; the harness plays the peer)
+// ---------------------------------------------------------------------------
+const LIVE_KINDS: [&str; 7] = [
+    "control",
+    "session-local-as-in-seq",
+    "session-local-as-in-set",
+    "confed-id-in-seq",
+    "member-as-in-confed-seq",
+    "originator-id-local",
+    "cluster-list-local",
+];
+const LIVE_DIMS: [usize; 4] = [5, 3, 2, 7]; // role rr confed kind
+
+fn frame(typ: u8, body: &[u8]) -> Vec<u8> {
+    let mut m = vec![0xffu8; 16];
+    m.extend_from_slice(&((19 + body.len()) as u16).to_be_bytes());
+    m.push(typ);
+    m.extend_from_slice(body);
+    m
+}
+
+fn open_bytes(asn: u32, rid: Ipv4Addr) -> Vec<u8> {
+    let mut caps = vec![1u8, 4, 0, 1, 0, 1]; // MP IPv4 unicast
+    caps.extend_from_slice(&[65, 4]);
+    caps.extend_from_slice(&asn.to_be_bytes());
+    let mut params = vec![2u8, caps.len() as u8];
+    params.extend_from_slice(&caps);
+    let mut b = vec![4u8];
+    b.extend_from_slice(&(if asn > 65535 { 23456u16 } else { asn as u16 }).to_be_bytes());
+    b.extend_from_slice(&90u16.to_be_bytes());
+    b.extend_from_slice(&rid.octets());
+    b.push(params.len() as u8);
+    b.extend_from_slice(&params);
+    frame(1, &b)
+}
+
+fn wire_attr(flags: u8, code: u8, val: &[u8]) -> Vec<u8> {
+    let mut v = Vec::new();
+    if val.len() > 255 {
+        v.push(flags | 0x10);
+        v.push(code);
+        v.extend_from_slice(&(val.len() as u16).to_be_bytes());
+    } else {
+        v.push(flags);
+        v.push(code);
+        v.push(val.len() as u8);
+    }
+    v.extend_from_slice(val);
+    v
+}
+
+/// UPDATE announcing `prefixes` (each /24, given by third octet of 10.0.x.0)
+fn update_bytes(role: PeerRole, segs: &Segs, med: u32, orig: Option<u32>, cl: Option<Vec<u8>>, third_octets: &[u8]) -> Vec<u8> {
+    let mut attrs = Vec::new();
+    attrs.extend(wire_attr(0x40, 1, &[0]));
+    attrs.extend(wire_attr(0x40, 2, &encode_segs(segs)));
+    attrs.extend(wire_attr(0x40, 3, &[192, 0, 2, 1]));
+    attrs.extend(wire_attr(0x80, 4, &med.to_be_bytes()));
+    if matches!(role, PeerRole::Ibgp | PeerRole::IbgpRrClient | PeerRole::ConfedEbgp) {
+        attrs.extend(wire_attr(0x40, 5, &100u32.to_be_bytes()));
+    }
+    if let Some(o) = orig {
+        attrs.extend(wire_attr(0x80, 9, &o.to_be_bytes()));
+    }
+    if let Some(c) = cl {
+        attrs.extend(wire_attr(0x80, 10, &c));
+    }
+    let mut b = vec![0u8, 0];
+    b.extend_from_slice(&(attrs.len() as u16).to_be_bytes());
+    b.extend_from_slice(&attrs);
+    for o in third_octets {
+        b.extend_from_slice(&[24, 10, 0, *o]);
+    }
+    frame(2, &b)
+}
+
+fn live_case_string(d: &[usize]) -> String {
+    format!(
+        "in-live:{} (session {} rr={} confed={} update={})",
+        d.iter().map(|x| x.to_string()).collect::<Vec<_>>().join("."),
+        ROLE_NAMES[d[0]],
+        RR_NAMES[d[1]],
+        d[2],
+        LIVE_KINDS[d[3]]
+    )
+}
+
+fn live_feasible(d: &[usize]) -> bool {
+    let role = ROLES[d[0]];
+    let ibgp = matches!(role, PeerRole::Ibgp | PeerRole::IbgpRrClient);
+    if role == PeerRole::ConfedEbgp && d[2] == 0 {
+        return false;
+    }
+    if role == PeerRole::IbgpRrClient && d[1] == 0 {
+        return false;
+    }
+    if !ibgp && d[1] == 1 {
+        return false; // same configured cluster-id as 'none'
+    }
+    match d[3] {
+        // confederation id distinct from the session's local AS only on internal sessions of a confederation
+        3 => d[2] == 1 && sess_local_asn(role, true) != CONFED_ID,
+        4 => d[2] == 1 && sess_local_asn(role, true) == M_AS,
+        _ => true,
+    }
+}
+
+/// wait until `cond` holds; expiry is a machinery error, never a verdict
+async fn wait_for(what: &str, mut cond: impl FnMut() -> bool) -> Result<(), String> {
+    let deadline = tokio::time::Instant::now() + Duration::from_secs(20);
+    while !cond() {
+        if tokio::time::Instant::now() > deadline {
+            return Err(format!("timeout waiting for {what}"));
+        }
+        tokio::time::sleep(Duration::from_millis(1)).await;
+    }
+    Ok(())
+}
+
+struct LiveOut {
+    after_control: RibDump,
+    after_loop: RibDump,
+}
+
+async fn live_session(d: &[usize]) -> Result<LiveOut, String> {
+    use tokio::io::AsyncWriteExt;
+    let role = ROLES[d[0]];
+    let confed = d[2] == 1;
+    let global = make_global();
+    let tables = make_tables(1);
+    let listener = tokio::net::TcpListener::bind("127.0.0.1:0").await.map_err(|e| e.to_string())?;
+    let addr = listener.local_addr().map_err(|e| e.to_string())?;
+    let (client, server) = tokio::join!(tokio::net::TcpStream::connect(addr), listener.accept());
+    let mut client = client.map_err(|e| e.to_string())?;
+    let server = server.map_err(|e| e.to_string())?.0;
+    let remote_addr = client.local_addr().map_err(|e| e.to_string())?.ip();
+    let counter_rx;
+    {
+        let mut g = global.write().await;
+        g.asn = M_AS;
+        g.router_id = router_id();
+        if confed {
+            g.confederation = Some(ConfederationConfig { id: CONFED_ID, members: MEMBERS.iter().copied().collect() });
+        }
+        let mut p = default_peer_params(remote_addr);
+        p.expected_remote_asn = remote_asn_of(role);
+        p.rs_client = role == PeerRole::RsClient;
+        p.route_reflector = RouteReflectorConfig {
+            route_reflector_client: role == PeerRole::IbgpRrClient,
+            route_reflector_cluster_id: if d[1] == 2 { Some(expl_cluster()) } else { None },
+        };
+        g.add_peer(p, None).map_err(|_| "add_peer failed".to_string())?;
+        counter_rx = Arc::clone(&g.peers[&remote_addr].counter_rx);
+    }
+    let session = accept_connection(&global, &tables, server, crate::fsm::Role::Passive).await.ok_or("accept_connection refused the connection")?;
+    if session.export_ctx.role != role {
+        return Err(format!("session got role {:?}, wanted {:?}", session.export_ctx.role, role));
+    }
+    let (active_tx, _active_rx) = mpsc::unbounded_channel::<TcpStream>();
+    let g2 = Arc::clone(&global);
+    let h = tokio::spawn(async move { session.run(g2, active_tx).await });
+
+    let local_as = sess_local_asn(role, confed);
+    let cid = configured_cluster_id(d[1]);
+    let mut segs = benign_segs(role);
+    let mut orig = None;
+    let mut cl = None;
+    match d[3] {
+        1 => segs.last_mut().unwrap().1.push(local_as),
+        2 => segs.push((T_SET, vec![65300, local_as])),
+        3 => segs.last_mut().unwrap().1.push(CONFED_ID),
+        4 => {
+            if segs[0].0 == T_CSEQ {
+                segs[0].1.push(M_AS)
+            } else {
+                segs.insert(0, (T_CSEQ, vec![MEMBER_PEER_AS, M_AS]))
+            }
+        }
+        5 => orig = Some(u32::from(router_id())),
+        6 => cl = Some(cl_bytes(2, cid).unwrap()),
+        _ => {}
+    }
+    let ka = frame(4, &[]);
+    client.write_all(&open_bytes(remote_asn_of(role), Ipv4Addr::new(10, 9, 9, 9))).await.map_err(|e| e.to_string())?;
+    client.write_all(&ka).await.map_err(|e| e.to_string())?;
+    // benign UPDATE for 10.0.1.0/24, then a KEEPALIVE as barrier (frames are handled in order)
+    client.write_all(&update_bytes(role, &benign_segs(role), 1, None, None, &[1])).await.map_err(|e| e.to_string())?;
+    client.write_all(&ka).await.map_err(|e| e.to_string())?;
+    let done = |h: &tokio::task::JoinHandle<()>| h.is_finished();
+    wait_for("second KEEPALIVE to be counted (control UPDATE processed)", || counter_rx.keepalive.load(Ordering::Relaxed) >= 2 || done(&h)).await?;
+    if done(&h) {
+        return Err("session terminated during the control UPDATE".into());
+    }
+    let after_control = rib_dump(&tables);
+    // the UPDATE under test: same prefix (different MED) and a new prefix
+    client.write_all(&update_bytes(role, &segs, 2, orig, cl, &[1, 2])).await.map_err(|e| e.to_string())?;
+    client.write_all(&ka).await.map_err(|e| e.to_string())?;
+    wait_for("third KEEPALIVE to be counted (UPDATE under test processed)", || counter_rx.keepalive.load(Ordering::Relaxed) >= 3 || done(&h)).await?;
+    if done(&h) {
+        return Err("session terminated during the UPDATE under test".into());
+    }
+    let after_loop = rib_dump(&tables);
+    drop(client);
+    tokio::time::timeout(Duration::from_secs(20), h).await.map_err(|_| "session task did not end after EOF".to_string())?.map_err(|e| e.to_string())?;
+    Ok(LiveOut { after_control, after_loop })
+}
+
+fn eval_live(d: &[usize], rt: &tokio::runtime::Runtime, rep: &mut Report, verbose: bool) {
+    let case = live_case_string(d);
+    let role = ROLES[d[0]];
+    let confed = d[2] == 1;
+    rep.evaluations += 1;
+    let out = match report::catch(|| rt.block_on(live_session(d))) {
+        Ok(Ok(o)) => o,
+        Ok(Err(e)) => {
+            rep.machinery_error = Some(format!("live session {case}: {e}"));
+            return;
+        }
+        Err(e) => {
+            rep.violation(Violation { sig: format!("C09/inbound-loop/live-panic/{}", LIVE_KINDS[d[3]]), what: format!("session panicked: {e}"), case });
+            return;
+        }
+    };
+    if verbose {
+        eprintln!("{case}");
+        eprintln!("  RIB after control: {:?}", out.after_control.iter().map(|x| (x.0.clone(), brief_attrs(&Arc::new(x.2.clone())))).collect::<Vec<_>>());
+        eprintln!("  RIB after test   : {:?}", out.after_loop.iter().map(|x| (x.0.clone(), brief_attrs(&Arc::new(x.2.clone())))).collect::<Vec<_>>());
+    }
+    if out.after_control.len() != 1 {
+        rep.machinery_error = Some(format!("live control UPDATE not installed ({} paths) in {case}", out.after_control.len()));
+        return;
+    }
+    let local_as = sess_local_asn(role, confed);
+    let cid = configured_cluster_id(d[1]);
+    let is_ibgp = matches!(role, PeerRole::Ibgp | PeerRole::IbgpRrClient);
+    let path_has = |attrs: &[Attr], asn: u32| {
+        attrs.iter().any(|a| a.code() == Attr::AS_PATH && a.binary().and_then(|b| parse_segs(b).ok()).is_some_and(|s| count_as(&s, asn) > 0))
+    };
+    let bad: Vec<&(String, IpAddr, Vec<Attr>)> = out
+        .after_loop
+        .iter()
+        .filter(|p| match d[3] {
+            1 | 2 => path_has(&p.2, local_as),
+            3 => path_has(&p.2, CONFED_ID),
+            4 => path_has(&p.2, M_AS),
+            5 => attrs_have_originator(&p.2, router_id()),
+            6 => attrs_have_cluster(&p.2, cid),
+            _ => false,
+        })
+        .collect();
+    match d[3] {
+        0 => {
+            if out.after_loop.len() == 2 {
+                rep.add("inbound/live/loop-free-update-installed", 1);
+            } else {
+                rep.add("obs/inbound/live/loop-free-update-not-installed", 1);
+            }
+        }
+        6 if !is_ibgp => {
+            if !bad.is_empty() {
+                rep.add(&format!("obs/inbound/cluster-list-with-configured-cluster-id-installed-on-non-ibgp-session/{}", ROLE_NAMES[d[0]]), 1);
+            } else if out.after_loop != out.after_control {
+                rep.add(&format!("obs/inbound/live/cluster-list-discarded-route-installed/{}", ROLE_NAMES[d[0]]), 1);
+            }
+        }
+        _ => {
+            if !bad.is_empty() {
+                rep.violation(Violation {
+                    sig: format!("C09/inbound-loop/live/{}/{}", LIVE_KINDS[d[3]], ROLE_NAMES[d[0]]),
+                    what: format!("looping UPDATE ({}) received on a {} session was installed: {} path(s) in the RIB exhibit the loop condition, e.g. {} {:?}", LIVE_KINDS[d[3]], ROLE_NAMES[d[0]], bad.len(), bad[0].0, brief_attrs(&Arc::new(bad[0].2.clone()))),
+                    case,
+                });
+            } else if out.after_loop == out.after_control {
+                rep.add("inbound/live/looping-update-left-rib-unchanged", 1);
+            } else {
+                // e.g. ORIGINATOR_ID discarded on a plain eBGP session (RFC 7606) and the route installed without it
+                rep.add(&format!("obs/inbound/live/rib-changed-without-loop-attrs/{}/{}", LIVE_KINDS[d[3]], ROLE_NAMES[d[0]]), 1);
+            }
+        }
+    }
+}
+
+fn run_inbound_live(rep: &mut Report, _thorough: bool) {
+    let rt = runtime();
+    let mut sub = Report::new("C09", "hd-c09");
+    let mut n = 0u64;
+    for i in 0..crate::verif::vx::enumr::product_size(&LIVE_DIMS) {
+        let d = crate::verif::vx::enumr::digits(i, &LIVE_DIMS);
+        if !live_feasible(&d) {
+            continue;
+        }
+        eval_live(&d, &rt, &mut sub, false);
+        n += 1;
+        if sub.machinery_error.is_some() {
+            break;
+        }
+    }
+    sub.distinct_nontrivial = n;
+    rep.notes.push(format!(
+        "inbound/live: {n} loopback sessions (accept_connection + PeerSession::run, harness-written OPEN/KEEPALIVE/UPDATE bytes, KEEPALIVE counter as barrier): session role x RR config x confederation x UPDATE kind {{control, session local AS in SEQ / in SET, confederation id in SEQ, member AS in CONFED_SEQ, ORIGINATOR_ID = router-id, CLUSTER_LIST containing the cluster-id}}; each after a benign UPDATE for the same prefix; RIB dumped after the barrier"
+    ));
+    rep.merge(sub);
+}
+
+fn replay_inbound(mut rep: Report, case: &str) -> Report {
+    if case.starts_with("in-fn:") {
+        return replay_inbound_fn(rep, case);
+    }
+    let (kind, rest) = case.split_at(case.find(':').map(|i| i + 1).unwrap_or(0));
+    let d: Vec<usize> = rest.split_whitespace().next().unwrap_or("").split('.').filter_map(|t| t.parse().ok()).collect();
+    let rt = runtime();
+    match kind {
+        "in-rx:" if d.len() == 6 && d.iter().zip(RX_DIMS.iter()).all(|(a, b)| a < b) && rx_feasible(&d) => eval_rx(&d, &rt, &mut rep, true),
+        "in-live:" if d.len() == 4 && d.iter().zip(LIVE_DIMS.iter()).all(|(a, b)| a < b) && live_feasible(&d) => eval_live(&d, &rt, &mut rep, true),
+        _ => rep.machinery_error = Some(format!("replay: cannot parse case {case:?}")),
+    }
     rep
 }
